@@ -389,4 +389,48 @@ def rule_before_any_byte(ctx):
                       loc=body_loc(cp), detail=sorted(vals))
 
 
-RULES = [rule_tables, rule_before_any_byte]
+TRUNCATING = ("take_while", "map_while", "take", "skip", "skip_while", "step_by", "scan", "nth", "last", "rev", "peekable", "fuse",
+              "find", "find_map", "position", "try_fold", "try_for_each")
+
+
+def rule_scans(ctx):
+    """R17.4: the header scans of the request analysis look at *every* effective field of the name: the iterator
+    pipelines between the effective header iterator and their consumers (count / next / any) use only
+    name filtering, projection and skipping of non-textual values -- no truncating adaptor.  The table of
+    R17.1 treats `count`, `first` and `any chunked` as atoms; this rule is what makes them mean what the
+    statement says (`more than one Host ... among the effective headers`, `framing headers`)."""
+    R = "R17.4"
+    prog = ctx.prog
+    an = prog.find("AmendedRequest::<Body>::analyze")
+    if not ctx.require(an, R, "entry", "request analysis"):
+        return
+    bodies = [an]
+    for n in ("AmendedRequest::<Body>::headers_get_all", "AmendedRequest::<Body>::headers_get"):
+        b = prog.find(n)
+        if ctx.require(b, R, "helper:" + n.split("::")[-1], n):
+            bodies.append(b)
+    seen = {}
+    for b in bodies:
+        for bb, t in b.calls():
+            p = short(callee_path(t) or "")
+            if "Iterator" in p or p.startswith("<") and " as Iterator>" in p:
+                seen.setdefault(p.split("::")[-1], []).append(b.short)
+    bad = ["%s in %s" % (k, sorted(set(v))[0]) for k, v in sorted(seen.items()) if k in TRUNCATING]
+    need = {"any", "count", "filter"}
+    ctx.check(need <= set(seen) and not bad, R, "full-scans",
+              "Host / Content-Length cardinality, first Content-Length and the chunked test scan every effective field of the name "
+              "(adaptors used: %s; none truncates)" % ", ".join(sorted(seen)), loc=body_loc(an), detail=bad)
+    # the name filter of headers_get_all compares the field name with the requested key and nothing else
+    ga = prog.find("AmendedRequest::<Body>::headers_get_all")
+    if ga is not None:
+        clos = prog.closures_of(ga)
+        okf = False
+        for c in clos:
+            names = [short(callee_path(t) or "") for _, t in c.calls()]
+            if any("PartialEq" in n and "eq" in n for n in names) and len(names) == 1:
+                okf = True
+        ctx.check(okf, R, "name-filter", "the per-name view filters by `field name == key` only", loc=body_loc(ga),
+                  detail=[[short(callee_path(t) or "") for _, t in c.calls()] for c in clos])
+
+
+RULES = [rule_tables, rule_scans, rule_before_any_byte]
